@@ -63,6 +63,18 @@
 //       valid-state sampler over a SCRIPTED inner StateSampler and a scripted, recording StateValidityChecker
 //       on R^dim (validSegmentCount overridden to nd)
 //       -> `ret=<b> st=<x,…> ns=<sampler calls> na=<isValid calls> calls=<U|N|G…> log=<x,…:v;…>`   (lock-step)
+//   vsa <name> <s|n> <via:d|p> <attempts> <improve> <clearance> <nd> <dim> <lo>*dim <hi>*dim <stddev|-> <dist> <near>*dim
+//       <ns> <sample>*ns <na> (<valid> <clearance>)*na
+//       as `vs`, on R^dim with the given bounds, recording the ARGUMENTS every inner-sampler call receives (near / mean
+//       state, distance / sigma); `-` keeps the constructor's default stddev_; via = p: every setting goes through the
+//       sampler's ParamSet (`nr_attempts`, `standard_deviation`, `nr_improve_attempts`, `min_obstacle_clearance`) instead of
+//       the setters
+//       -> `ret= st= ns= na= calls=<U|N:<near>@<distance>|G:<mean>@<sigma>>;… log=…`                       (lock-step)
+//   svn <1|2> <name> <via> <attempts> <improve> <clearance> <nd> <alias:0|1> <dim> <lo>*dim <hi>*dim <stddev|-> <dist>
+//       <near>*dim <ns> <sample>*ns <na> (<valid> <clearance>)*na
+//       SpaceInformation::searchValidNearby(sampler, state, near, distance) [1] / (state, near, distance, attempts) [2] over the
+//       same scripted pieces; `near` may be out of bounds; alias = 1: state and near are the SAME object
+//       -> as `vsa`                                                                                        (lock-step)
 //   vreal <name> <s|n> <iters> <attempts> <permille valid> <clearance> <dist> <space> <centre>
 //       valid-state sampler over the real default sampler and a pseudo-random validity predicate of the state
 //       bits, recorded; -> `iters=<n> succ=<k> badBounds=<k> badLast=<k> nearLast=<k> badPred=<k> badClr=<k> first=<state|->`
@@ -125,6 +137,7 @@ struct Script
     std::vector<std::pair<bool, double>> answers;
     size_t si = 0, ai = 0;
     std::string calls;
+    std::string args;   // calls with their arguments: U | N:<near>@<distance> | G:<mean>@<sigma>, `;`-separated
     std::string log;
     bool shortScript = false;
 };
@@ -158,16 +171,24 @@ public:
         }
         ++sc_->si;
     }
+    void arg(const std::string &a)
+    {
+        sc_->args += (sc_->args.empty() ? "" : ";") + a;
+    }
+    // the arguments are recorded BEFORE the output state is written (the output may alias the near / mean state)
     void sampleUniform(ob::State *st) override
     {
+        arg("U");
         next(st, 'U');
     }
-    void sampleUniformNear(ob::State *st, const ob::State *, double) override
+    void sampleUniformNear(ob::State *st, const ob::State *near, double d) override
     {
+        arg("N:" + vecBits(near->as<ob::RealVectorStateSpace::StateType>()->values, sc_->dim) + "@" + vp::bits(d));
         next(st, 'N');
     }
-    void sampleGaussian(ob::State *st, const ob::State *, double) override
+    void sampleGaussian(ob::State *st, const ob::State *mean, double sd) override
     {
+        arg("G:" + vecBits(mean->as<ob::RealVectorStateSpace::StateType>()->values, sc_->dim) + "@" + vp::bits(sd));
         next(st, 'G');
     }
 
@@ -223,6 +244,46 @@ public:
 private:
     unsigned nd_;
 };
+
+static std::string dec17(double x)
+{
+    std::ostringstream os;
+    os.imbue(std::locale::classic());
+    os << std::setprecision(17) << x;
+    return os.str();
+}
+
+// the same settings through the sampler's ParamSet (what a planner configured from a parameter file does)
+static ob::ValidStateSamplerPtr makeVssParams(const std::string &name, const ob::SpaceInformation *si, unsigned attempts,
+                                              unsigned improve, double clr, double stddev)
+{
+    ob::ValidStateSamplerPtr v;
+    if (name == "uniform")
+        v = std::make_shared<ob::UniformValidStateSampler>(si);
+    else if (name == "gaussian")
+        v = std::make_shared<ob::GaussianValidStateSampler>(si);
+    else if (name == "obstacle")
+        v = std::make_shared<ob::ObstacleBasedValidStateSampler>(si);
+    else if (name == "bridge")
+        v = std::make_shared<ob::BridgeTestValidStateSampler>(si);
+    else if (name == "maxclear")
+        v = std::make_shared<ob::MaximizeClearanceValidStateSampler>(si);
+    else if (name == "minclear")
+        v = std::make_shared<ob::MinimumClearanceValidStateSampler>(si);
+    else
+        throw vp::ParseError("sampler " + name);
+    bool ok = true;
+    if ((name == "gaussian" || name == "bridge") && stddev >= 0)
+        ok = v->params().setParam("standard_deviation", dec17(stddev)) && ok;
+    if (name == "maxclear")
+        ok = v->params().setParam("nr_improve_attempts", std::to_string(improve)) && ok;
+    if (name == "minclear")
+        ok = v->params().setParam("min_obstacle_clearance", dec17(clr)) && ok;
+    ok = v->params().setParam("nr_attempts", std::to_string(attempts)) && ok;
+    if (!ok)
+        throw ompl::Exception("ParamSet refused a valid-state sampler parameter");
+    return v;
+}
 
 static ob::ValidStateSamplerPtr makeVss(const std::string &name, const ob::SpaceInformation *si, unsigned attempts,
                                         unsigned improve, double clr, double stddev)
@@ -1367,6 +1428,136 @@ int main()
                               " ns=" + std::to_string(sc.si) + " na=" + std::to_string(sc.ai) + " calls=" + sc.calls +
                               " log=" + sc.log;
                     si->freeState(st);
+                    si->freeState(near);
+                }
+                std::cout << res << "\n";
+            }
+            else if (op == "vsa" || op == "svn")
+            {
+                bool svn = op == "svn";
+                if (t.size() < 12)
+                    throw vp::ParseError(op);
+                unsigned long overload = 0;
+                if (svn)
+                {
+                    overload = vp::needN(t, i);
+                    if (overload != 1 && overload != 2)
+                        throw vp::ParseError("overload");
+                }
+                std::string name = t[i++];
+                std::string mode = "n";
+                if (!svn)
+                {
+                    mode = t[i++];
+                    if (mode != "s" && mode != "n")
+                        throw vp::ParseError("mode");
+                }
+                std::string via = t[i++];
+                if (via != "d" && via != "p")
+                    throw vp::ParseError("via");
+                unsigned attempts = (unsigned)vp::needN(t, i);
+                unsigned improve = (unsigned)vp::needN(t, i);
+                double clr = vp::needF(t, i);
+                unsigned nd = (unsigned)vp::needN(t, i);
+                unsigned long alias = 0;
+                if (svn)
+                {
+                    alias = vp::needN(t, i);
+                    if (alias > 1)
+                        throw vp::ParseError("alias");
+                }
+                unsigned dim = (unsigned)vp::needN(t, i);
+                if (dim < 1 || dim > 64)
+                    throw vp::ParseError("dim");
+                std::vector<double> lo(dim), hi(dim), nearv(dim);
+                for (unsigned j = 0; j < dim; ++j)
+                    lo[j] = vp::needF(t, i);
+                for (unsigned j = 0; j < dim; ++j)
+                    hi[j] = vp::needF(t, i);
+                double stddev = -1.0;
+                if (i < t.size() && t[i] == "-")
+                    ++i;
+                else
+                    stddev = vp::needF(t, i);
+                double dist = vp::needF(t, i);
+                for (unsigned j = 0; j < dim; ++j)
+                    nearv[j] = vp::needF(t, i);
+                Script sc;
+                sc.dim = dim;
+                unsigned long ns = vp::needN(t, i);
+                for (unsigned long k = 0; k < ns; ++k)
+                {
+                    std::vector<double> x(dim);
+                    for (unsigned j = 0; j < dim; ++j)
+                        x[j] = vp::needF(t, i);
+                    sc.samples.push_back(x);
+                }
+                unsigned long na = vp::needN(t, i);
+                for (unsigned long k = 0; k < na; ++k)
+                {
+                    unsigned long v = vp::needN(t, i);
+                    if (v > 1)
+                        throw vp::ParseError("valid flag");
+                    double c = vp::needF(t, i);
+                    sc.answers.emplace_back(v == 1, c);
+                }
+                if (i != t.size() || nd < 1)
+                    throw vp::ParseError("trailing");
+                if (name != "uniform" && name != "gaussian" && name != "obstacle" && name != "bridge" &&
+                    name != "maxclear" && name != "minclear")
+                    throw vp::ParseError("sampler");
+                if (svn && overload == 2 && name != "uniform")
+                    throw vp::ParseError("sampler");
+                auto sp = std::make_shared<FixedSegRn>(dim, nd);
+                ob::RealVectorBounds b(dim);
+                for (unsigned j = 0; j < dim; ++j)
+                {
+                    b.setLow(j, lo[j]);
+                    b.setHigh(j, hi[j]);
+                }
+                sp->setBounds(b);
+                Script *scp = &sc;
+                sp->setStateSamplerAllocator([scp](const ob::StateSpace *s)
+                                             { return std::make_shared<ScriptedSampler>(s, scp); });
+                auto si = std::make_shared<ob::SpaceInformation>(sp);
+                si->setStateValidityChecker(std::make_shared<ScriptedChecker>(si, scp));
+                si->setMotionValidator(std::make_shared<ob::DiscreteMotionValidator>(si));
+                si->setup();
+                std::string res;
+                {
+                    ob::ValidStateSamplerPtr vss;
+                    if (!(svn && overload == 2))
+                        vss = via == "p" ? makeVssParams(name, si.get(), attempts, improve, clr, stddev)
+                                         : makeVss(name, si.get(), attempts, improve, clr, stddev);
+                    ob::State *near = si->allocState();
+                    ob::State *st = (svn && alias == 1) ? near : si->allocState();
+                    for (unsigned j = 0; j < dim; ++j)
+                    {
+                        // `state` starts as something no script contains, so a sampler that returns without writing shows
+                        st->as<ob::RealVectorStateSpace::StateType>()->values[j] = -12345.678;
+                        near->as<ob::RealVectorStateSpace::StateType>()->values[j] = nearv[j];
+                    }
+                    sc.si = sc.ai = 0;
+                    sc.calls.clear();
+                    sc.args.clear();
+                    sc.log.clear();
+                    sc.shortScript = false;
+                    bool ret;
+                    if (!svn)
+                        ret = mode == "s" ? vss->sample(st) : vss->sampleNear(st, near, dist);
+                    else if (overload == 1)
+                        ret = si->searchValidNearby(vss, st, near, dist);
+                    else
+                        ret = si->searchValidNearby(st, near, dist, attempts);
+                    if (sc.shortScript)
+                        res = "short";
+                    else
+                        res = "ret=" + b01(ret) + " st=" +
+                              vecBits(st->as<ob::RealVectorStateSpace::StateType>()->values, dim) +
+                              " ns=" + std::to_string(sc.si) + " na=" + std::to_string(sc.ai) + " calls=" + sc.args +
+                              " log=" + sc.log;
+                    if (st != near)
+                        si->freeState(st);
                     si->freeState(near);
                 }
                 std::cout << res << "\n";
